@@ -3,6 +3,7 @@ import OvniModel.Emu.SystemSpec
 import OvniModel.Lemmas.SystemMain
 import OvniModel.Lemmas.SystemOrder
 import OvniModel.Lemmas.SystemConflict
+import OvniModel.Lemmas.SystemContent
 
 /-!
 # C15 — metadata merge is distribution-independent; conflicts are refused cleanly
@@ -163,6 +164,18 @@ example : ∃ h, build .asIs wBig = .ok h ∧ h.sortByRank = true ∧
     h.cpuRows = [(0, some 9), (0, none), (1, some 2), (1, some 4), (1, none)] := by
   refine ⟨_, rfl, ?_⟩
   decide
+
+/-! ## What the hierarchy contains -/
+
+/-- A successful `build` contains exactly the union (`Content`, in
+    `Emu/SystemSpec.lean`): the looms named by the thread streams; per loom the
+    CPUs of its CPU facts, with indices exactly `0..n-1`; the processes and
+    threads of the thread streams; each process with the app id (and rank /
+    rank count, if any) that its threads wrote. -/
+theorem hier_content (m : Mode) (ss : List StreamMeta) (h : Hier) (hb : build m ss = .ok h) :
+    Content ss h := by
+  obtain ⟨sys, hc, hf⟩ := build_ok hb
+  exact (finish_content (create_ok hc) hf).of_load
 
 /-! ## conflicts_refused -/
 
